@@ -100,6 +100,7 @@ def _full_return(cfg, T):
 def _g1(ctx: Context) -> None:
     ck = ctx.ck
     f, cfg, T, pd, r0, ios_priv, ios_pub, acc_pub, shared, skey, dec = _vocab(ctx)
+    pp.step_check_effective(ctx, "C01.G1")
     ret = _full_return(cfg, T)
     if ret is None:
         ck.unknown("C01.G1", "get_session_keys: the return carrying the derivation closure was not found", f.loc())
